@@ -309,4 +309,58 @@ theorem exitT_scale (s r1 r2 h : ℝ) (hs : 0 < s) (hh : 0 < h) : exitTK (s * r1
   ring
 end vol
 
+
+/-! ## angles: functions of the inter-node distances only -/
+section angles
+variable {K : Type} [Field K] [LinearOrder K]
+
+/-- inner product of the two edge vectors `B - A` and `C - A` (the numerator of every bifurcation-angle cosine) -/
+def edgeDot (A B C : K × K × K) : K :=
+  (B.1 - A.1) * (C.1 - A.1) + (B.2.1 - A.2.1) * (C.2.1 - A.2.1) + (B.2.2 - A.2.2) * (C.2.2 - A.2.2)
+
+/-- polarisation: the inner product of two edge vectors at a node is determined by the three squared distances -/
+theorem edgeDot_from_distances (A B C : K × K × K) :
+    2 * edgeDot A B C = C12.d2 A B + C12.d2 A C - C12.d2 B C := by
+  simp only [edgeDot, C12.d2]; ring
+
+/-- **any map that preserves the inter-node distances preserves every angle**: the cosine of the angle at `A`
+between `B` and `C` is `edgeDot A B C / √(d2 A B · d2 A C)`, and all three ingredients are unchanged -/
+theorem angle_invariant_of_isometry (h2 : (2 : K) ≠ 0) (A B C A' B' C' : K × K × K)
+    (hAB : C12.d2 A' B' = C12.d2 A B) (hAC : C12.d2 A' C' = C12.d2 A C) (hBC : C12.d2 B' C' = C12.d2 B C) :
+    edgeDot A' B' C' = edgeDot A B C := by
+  have h := edgeDot_from_distances A' B' C'
+  rw [hAB, hAC, hBC, ← edgeDot_from_distances A B C] at h
+  exact mul_left_cancel₀ h2 h
+
+/-- **uniform scaling multiplies inner products and squared distances by the same factor `s²`**, so cosines
+(`edgeDot / √(d2 · d2)`) do not change -/
+theorem angle_data_scale (s : K) (A B C : K × K × K) :
+    let S := fun (p : K × K × K) => Gen.Affine.applyPoint (Gen.Mat.scale3d s s s) p.1 p.2.1 p.2.2
+    edgeDot (S A) (S B) (S C) = s * s * edgeDot A B C ∧
+    C12.d2 (S A) (S B) = s * s * C12.d2 A B ∧ C12.d2 (S A) (S C) = s * s * C12.d2 A C := by
+  intro S
+  have e : ∀ p : K × K × K, S p = (s * p.1, s * p.2.1, s * p.2.2) := fun p => C12.scale_origin s s s p.1 p.2.1 p.2.2
+  rw [e A, e B, e C]
+  simp only [edgeDot, C12.d2]
+  refine ⟨by ring, by ring, by ring⟩
+
+/-- **rotating the neuron about an axis through the root (or the origin) and translating it changes no angle** -/
+theorem rigid_preserves_angles (h2 : (2 : K) ≠ 0) (c s cx cy cz tx ty tz : K) (h : c * c + s * s = 1)
+    (A B C : K × K × K) :
+    let Tt := fun (p : K × K × K) => Gen.Affine.applyPoint (Gen.Mat.translate3d tx ty tz) p.1 p.2.1 p.2.2
+    let Rx := fun (p : K × K × K) => Gen.Affine.applyPoint (Gen.Affine.aboutRoot (Gen.Mat.rotate3d_x c s) cx cy cz) p.1 p.2.1 p.2.2
+    let Ry := fun (p : K × K × K) => Gen.Affine.applyPoint (Gen.Affine.aboutRoot (Gen.Mat.rotate3d_y c s) cx cy cz) p.1 p.2.1 p.2.2
+    let Rz := fun (p : K × K × K) => Gen.Affine.applyPoint (Gen.Affine.aboutRoot (Gen.Mat.rotate3d_z c s) cx cy cz) p.1 p.2.1 p.2.2
+    edgeDot (Tt A) (Tt B) (Tt C) = edgeDot A B C ∧ edgeDot (Rx A) (Rx B) (Rx C) = edgeDot A B C ∧
+    edgeDot (Ry A) (Ry B) (Ry C) = edgeDot A B C ∧ edgeDot (Rz A) (Rz B) (Rz C) = edgeDot A B C := by
+  intro Tt Rx Ry Rz
+  have key := fun (P Q : K × K × K) =>
+    rigid_preserves_distances c s cx cy cz tx ty tz P.1 P.2.1 P.2.2 Q.1 Q.2.1 Q.2.2 h
+  refine ⟨?_, ?_, ?_, ?_⟩
+  · exact angle_invariant_of_isometry h2 A B C _ _ _ (key A B).1 (key A C).1 (key B C).1
+  · exact angle_invariant_of_isometry h2 A B C _ _ _ (key A B).2.1 (key A C).2.1 (key B C).2.1
+  · exact angle_invariant_of_isometry h2 A B C _ _ _ (key A B).2.2.1 (key A C).2.2.1 (key B C).2.2.1
+  · exact angle_invariant_of_isometry h2 A B C _ _ _ (key A B).2.2.2 (key A C).2.2.2 (key B C).2.2.2
+end angles
+
 end C11
